@@ -83,12 +83,13 @@ def out_sha(outdir):
     return h.hexdigest()
 
 
-def run_once(d, lang, mode, env, tag):
+def run_once(d, lang, mode, env, tag, roots=None):
     out = os.path.join(d, f"out_{tag}")
     os.makedirs(out, exist_ok=True)
     args = ["-l", lang] + LANG_ARGS[lang]
     args += ["-o", os.path.join(out, "out." + common.EXT[lang])] if mode == "single" else ["-d", out]
-    args.append(os.path.join(d, "src_root"))
+    # roots: several DIRECTORIES arguments (every one of them is scanned), else the one source root
+    args += [os.path.join(d, "src_root", r) for r in roots] if roots else [os.path.join(d, "src_root")]
     r = cli.run_cli(args, env=env, timeout=20)
     sha = out_sha(out) if r["exit"] == "ok" else None
     return r, sha, out
@@ -307,11 +308,14 @@ def run(chk):
             "file-per-item": {f"p{j}/src/i{j}.rs": x[1] for j, x in enumerate(items)},
             "by-kind": {f"k_{kind}/src/{kind}.rs": "".join(x[1] for x in items if x[0] == kind) for kind in {x[0] for x in items}},
             "reversed-one-file": {"a/deep/er/src/all.rs": "".join(x[1] for x in reversed(items))},
+            # the same items under three source roots, given as three DIRECTORIES arguments (in the order r2 r0 r1)
+            "three-roots": {f"r{j % 3}/c{j}/src/i{j}.rs": x[1] for j, x in enumerate(items)},
         }
         for sname, files in splits.items():
             d = os.path.join(work, f"sp{k}{sname}")
             cli.make_tree(os.path.join(d, "src_root"), files)
-            r, sha, _ = run_once(d, lang, "single", {"TYPESHARE_VERIF_THREADS": "1"}, "s")
+            roots = [r for r in ("r2", "r0", "r1") if any(f.startswith(r + "/") for f in files)] if sname == "three-roots" else None
+            r, sha, _ = run_once(d, lang, "single", {"TYPESHARE_VERIF_THREADS": "1"}, "s", roots)
             if r["exit"] != "ok":
                 raise ToolError(f"typeshare failed: {r['stderr'][-300:]}")
             col.add(f"split{k}", sha, {"mode": "single", "dim": "file-split", "features": features(tree), "lang": lang,
